@@ -15,6 +15,7 @@ Sub-protocol `C08`: the controller/screen model against the standard-decode spec
   pages (<bank> <hex>)*          snapshot load: whole pages + refresh
   poke <addr> <val>
   peek <addr>                    -> <byte>
+  status                         -> <frameClocks> <passedFrames> (no state change)
 every state-changing op answers  <frameClocks> <passedFrames>
   frame                          -> <fnv of model front canvas> <model flash> <model frame counter>
   spec                           -> <fnv of stdDecode of the visible bank, phase 0> <phase 1>
@@ -94,6 +95,7 @@ def handle (s : St) : List String → St × String
     | some ps => step s (.loadPages ps)
     | none => (s, "bad-op")
   | ["poke", a, v] => step s (.poke (bv16 a) (bv8 v))
+  | ["status"] => (s, status s.c)
   | ["peek", a] => (s, hex8 (s.c.mem.read (bv16 a)))
   | ["frame"] =>
     let c := s.c
